@@ -133,9 +133,11 @@ public:
       prepro.set_result_var(argvar);
       return;
     } else if (ub<=0.0) {
-      auto res = MPD( AssignResult2Args(   // create newvar = -argvar
+      // create newvar = -argvar
+      // (a fixed variable if argvar is fixed and the result is a constant)
+      auto res = MPD( AssignResultVar2Args(
             LinearFunctionalConstraint({ {{-1.0}, {argvar}}, 0.0 })) );
-      prepro.set_result_var(res.get_var());
+      prepro.set_result_var(res);
       return;
     }
     prepro.narrow_result_bounds(0.0, std::max(-lb, ub));
